@@ -619,8 +619,26 @@ pub fn eval_case(prop: &str, case: &Case, obs: &mut Obs) -> Vec<Violation> {
             mon::c08::check(&a1, &a2, obs)
         }
         ("C10", Case::Frag { h, .. }) | ("C11", Case::Frag { h, .. }) => {
-            // (state snapshots render the whole queue: not for fragments of tens of thousands of samples)
-            let ex = run_frag(h, &ExecOpts { snapshots: h.ops.len() < 20_000, ..Default::default() });
+            // (a state snapshot is taken before every call and renders + hashes the whole pending
+            // queue: its cost is the sum over calls of the bytes queued at that moment. Not for
+            // fragments of tens of thousands of samples, nor for hundreds of queued 64 KiB samples)
+            let snapshot_cost: u128 = {
+                let (mut queued, mut total) = (0u128, 0u128);
+                for op in &h.ops {
+                    total += queued + 64;
+                    match op {
+                        FOp::Write { data, .. } => queued += data.len() as u128 + 64,
+                        FOp::Flush => queued = 0,
+                        _ => {}
+                    }
+                }
+                total
+            };
+            let snapshots = h.ops.len() < 20_000 && snapshot_cost < 1_500_000_000;
+            if !snapshots {
+                obs.count("histories_run_without_state_snapshots(cost)", 1);
+            }
+            let ex = run_frag(h, &ExecOpts { snapshots, ..Default::default() });
             if ex.results.iter().any(|r| matches!(r, FRes::Panic { .. })) {
                 obs.inconclusive += 1;
                 obs.count("histories_ending_in_panic(C12's business)", 1);
